@@ -1177,6 +1177,216 @@ def run_callbacks(level):
     return n, failures, counters
 
 
+def as_views(a):
+    """the same logical rank-1 array in other memory layouts: (name, array)"""
+    a = np.asarray(a)
+    out = [("contiguous", a)]
+    if len(a) >= 1:
+        out.append(("negative-stride view", a[::-1].copy()[::-1]))
+        out.append(("stride-2 view", np.repeat(a, 2)[::2]))
+        pad = np.concatenate([a[:1], a, a[:1]])
+        out.append(("interior slice", pad[1:-1]))
+    for _, v in out:
+        assert np.array_equal(v, a)
+    return out
+
+
+def run_views(max_len):
+    """the layout of an argument array is not part of its value: every constructor that takes compressed words and
+    every call form that takes symbols or parameters must treat a view like a contiguous copy (C06: the words depend on
+    the message only; listed under the properties of the coders as well)"""
+    failures, n = [], 0
+    counters = {"py_view_constructions": 0, "py_view_symbol_arrays": 0}
+    def fail(what, detail):
+        if len([f for f in failures if f["what"] == what]) < 3:
+            failures.append({"what": what, "detail": detail})
+    S = constriction.symbol
+    cat = M.Categorical(np.array([0.2, 0.5, 0.3]), perfect=False)
+    famg = M.QuantizedGaussian(-3, 3)
+    book = S.huffman.DecoderHuffmanTree(np.array([0.3, 0.2, 0.4, 0.1]))
+    makers = [("AnsCoder(words)", lambda w: [int(x) for x in ANS(w).decode(cat, 5)]),
+              ("AnsCoder(words, seal=True)", lambda w: [int(x) for x in ANS(w, True).get_compressed(unseal=True)] + [int(x) for x in ANS(w, True).decode(cat, 5)]),
+              ("RangeDecoder(words)", lambda w: [int(x) for x in RDEC(w).decode(cat, 3)]),
+              ("ChainCoder(words)", lambda w: [[int(x) for x in a] for a in CHAIN(w, False, False).get_data()] + [[int(x) for x in CHAIN(w, False, False).decode(cat, 2)]]),
+              ("ChainCoder(words, seal=True)", lambda w: [[int(x) for x in a] for a in CHAIN(w, False, True).get_data(unseal=True)]),
+              ("ChainCoder(words, is_remainders=True)", lambda w: [[int(x) for x in a] for a in CHAIN(w, True, False).get_remainders()]),
+              ("symbol.StackCoder(words)", lambda w: (lambda c: [c.decode_symbol(book) for _ in range(6)])(S.StackCoder(w))),
+              ("symbol.QueueDecoder(words)", lambda w: (lambda c: [c.decode_symbol(book) for _ in range(6)])(S.QueueDecoder(w)))]
+    with Quiet():
+        for w in word_strings(1, max_len, [1, 2, 0x12345678, 0x80000000, 0xffffffff, 0xdeadbeef]):
+            for mname, make in makers:
+                try:
+                    want = make(w)
+                except Exception:
+                    want = "refused"
+                for vname, v in as_views(w)[1:]:
+                    n += 1; counters["py_view_constructions"] += 1
+                    try:
+                        got = make(v)
+                    except Exception:
+                        got = "refused"
+                    if got != want:
+                        fail(f"Python front end | {mname} | a {vname} of the words is not read like a contiguous copy", f"words {[hex(int(x)) for x in w]}: {got} instead of {want}")
+        # symbol and parameter arrays
+        means, stds = np.array([0.4, -1.2, 2.0, 0.0]), np.array([1.3, 0.5, 3.0, 0.8])
+        data = np.array([0x12345678, 0x9abcdef0, 0x0fedcba9, 0x13579bdf, 0x2468ace0, 0xdeadbeef], dtype=np.uint32)
+        for k in range(0, 5):
+            for msg in itertools.product([0, 1, 2], repeat=k):
+                arr = np.array(msg, dtype=np.int32)
+                def words_of(sym, mu, sd):
+                    out = []
+                    a = ANS(); a.encode_reverse(sym, cat); out.append([int(x) for x in a.get_compressed()])
+                    r = RENC(); r.encode(sym, cat); out.append([int(x) for x in r.get_compressed()])
+                    c = CHAIN(data, True, False); c.encode_reverse(sym, cat); out.append([[int(x) for x in t] for t in c.get_remainders()])
+                    if len(sym) <= 4:
+                        a = ANS(); a.encode_reverse(sym, famg, mu[:len(sym)], sd[:len(sym)]); out.append([int(x) for x in a.get_compressed()])
+                        r = RENC(); r.encode(sym, famg, mu[:len(sym)], sd[:len(sym)]); out.append([int(x) for x in r.get_compressed()])
+                        c = CHAIN(data, True, False); c.encode_reverse(sym, famg, mu[:len(sym)], sd[:len(sym)]); out.append([[int(x) for x in t] for t in c.get_remainders()])
+                    return out
+                want = words_of(arr, means, stds)
+                for (vname, v), (_, vm), (_, vs) in zip(as_views(arr)[1:], as_views(means)[1:], as_views(stds)[1:]):
+                    n += 1; counters["py_view_symbol_arrays"] += 1
+                    try:
+                        got = words_of(v, vm, vs)
+                    except BaseException as e:
+                        got = repr(e)
+                    if got != want:
+                        names = ["AnsCoder.encode_reverse(array, model)", "RangeEncoder.encode(array, model)", "ChainCoder.encode_reverse(array, model)",
+                                 "AnsCoder.encode_reverse(array, family, parameter arrays)", "RangeEncoder.encode(array, family, parameter arrays)", "ChainCoder.encode_reverse(array, family, parameter arrays)"]
+                        which = [names[i] for i in range(len(want))if not isinstance(got, str) and i < len(got) and got[i] != want[i]] or ["(raises)"]
+                        fail(f"Python front end | {which[0]} | a {vname} of the symbols / parameters is not read like a contiguous copy", f"message {list(msg)}: {got} instead of {want}")
+    return n, failures, counters
+
+
+def run_misuse(level):
+    """calls that the binding layer must refuse: a refused call raises and leaves the coder as it was (C09 through the
+    Python front end): symbol / parameter arrays of different lengths, symbol arrays of a wider dtype holding values
+    that do not fit, scalar symbols that do not fit"""
+    failures, n = [], 0
+    counters = {"py_misuse_calls": 0, "py_misuse_refused": 0}
+    def fail(what, detail):
+        if len([f for f in failures if f["what"] == what]) < 3:
+            failures.append({"what": what, "detail": detail})
+    cat = M.Categorical(np.array([0.2, 0.5, 0.3]), perfect=False)
+    famg, famc = M.QuantizedGaussian(-3, 3), M.Categorical(perfect=False)
+    means, stds = np.array([0.4, -1.2, 2.0, 0.0, 1.0]), np.array([1.3, 0.5, 3.0, 0.8, 1.0])
+    tabs = np.array([[0.2, 0.5, 0.3], [0.6, 0.3, 0.1], [0.1, 0.1, 0.8], [0.3, 0.3, 0.4], [0.5, 0.25, 0.25]])
+    data = np.array([0x12345678, 0x9abcdef0, 0x0fedcba9, 0x13579bdf, 0x2468ace0, 0xdeadbeef], dtype=np.uint32)
+    coders = [("AnsCoder.encode_reverse", lambda: ANS(), lambda c, *a: c.encode_reverse(*a), lambda c: [int(x) for x in c.get_compressed()]),
+              ("RangeEncoder.encode", lambda: RENC(), lambda c, *a: c.encode(*a), lambda c: ([int(x) for x in c.get_compressed()], c.pos())),
+              ("ChainCoder.encode_reverse", lambda: CHAIN(data, True, False), lambda c, *a: c.encode_reverse(*a), lambda c: [[int(x) for x in t] for t in c.get_remainders()])]
+    calls = []
+    for ns in range(0, 5):
+        for npar in range(0, 5):
+            if ns != npar:
+                calls.append((f"{ns} symbols with {npar} rows of Gaussian parameters", (np.array([0, 1, 2, 1][:ns], dtype=np.int32), famg, means[:npar], stds[:npar])))
+                calls.append((f"{ns} symbols with {npar} rows of categorical parameters", (np.array([0, 1, 2, 1][:ns], dtype=np.int32), famc, tabs[:npar])))
+    for nm in range(0, 4):
+        for nsd in range(0, 4):
+            if nm != nsd:
+                calls.append((f"parameter arrays of lengths {nm} and {nsd}", (np.array([0, 1, 2, 1][:nm], dtype=np.int32), famg, means[:nm], stds[:nsd])))
+    for big in (2**32 + 1, -2**32 + 2, 2**31, -2**31 - 1, 2**40):
+        calls.append((f"int64 symbol array holding {big}", (np.array([1, big], dtype=np.int64), cat)))
+        calls.append((f"int64 symbol array holding {big} with per-symbol parameters", (np.array([1, big], dtype=np.int64), famg, means[:2], stds[:2])))
+        calls.append((f"scalar symbol {big}", (big, cat)))
+    calls.append(("float symbol array [0.0, 1.5]", (np.array([0.0, 1.5]), cat)))
+    calls.append(("uint32 symbol array holding 2^32 - 1", (np.array([1, 2**32 - 1], dtype=np.uint32), cat)))
+    calls.append(("scalar symbol with parameter arrays", (1, famg, means[:1], stds[:1])))
+    with Quiet():
+        for cname, make, enc, state in coders:
+            for prefix in ([], [0, 2, 1]):
+                for what, args in calls:
+                    n += 1; counters["py_misuse_calls"] += 1
+                    c = make()
+                    for s_ in prefix:
+                        enc(c, s_, cat)
+                    before = state(c)
+                    try:
+                        enc(c, *args)
+                        # accepted: then it must have coded what was asked for; the only acceptable reading of a wider dtype is the exact value
+                        fail(f"Python front end | {cname} | a call that cannot be honoured is accepted", f"{what} (after {prefix})")
+                        continue
+                    except Exception as e:
+                        if is_panic(e):
+                            fail(f"Python front end | {cname} | a call that cannot be honoured panics instead of raising", f"{what}: {str(e)[:100]}")
+                        counters["py_misuse_refused"] += 1
+                    except BaseException as e:
+                        fail(f"Python front end | {cname} | a call that cannot be honoured panics instead of raising", f"{what}: {str(e)[:100]}")
+                    if state(c) != before:
+                        fail(f"Python front end | {cname} | a refused call changes the coder", f"{what} (after {prefix})")
+    return n, failures, counters
+
+
+def run_representations(level):
+    """C05 through the Python front end: a concrete model, the same model with some parameters delayed, and with all
+    parameters delayed are one model: identical words on both coders, for every message over the listed symbols"""
+    failures, n = [], 0
+    counters = {"py_representation_groups": 0, "py_representation_comparisons": 0}
+    def fail(what, detail):
+        if len([f for f in failures if f["what"] == what]) < 3:
+            failures.append({"what": what, "detail": detail})
+    def col(x, k, dt=np.float64):
+        return np.array([x] * k, dtype=dt)
+    groups = []   # (name, [(representation name, model, per-symbol parameter builder k -> tuple)], symbols)
+    locs = [0.0, -1.5, 2.25, -40.0] + ([1e-9, 17.0, -0.0] if level else [])
+    scales = [1.0, 0.3, 7.0] + ([1e-3, 100.0] if level else [])
+    for fam, cls in (("QuantizedGaussian", M.QuantizedGaussian), ("QuantizedLaplace", M.QuantizedLaplace), ("QuantizedCauchy", M.QuantizedCauchy)):
+        for lo, hi in ((-5, 5), (-60, 3)):
+            for a in locs:
+                for b in scales:
+                    groups.append((f"{fam}({lo}, {hi}, {a}, {b})", [
+                        ("all parameters in the constructor", cls(lo, hi, a, b), None),
+                        ("location in the constructor, scale per symbol", cls(lo, hi, a), lambda k, b=b: (col(b, k),)),
+                        ("scale in the constructor (keyword), location per symbol", cls(lo, hi, **{("std" if fam == "QuantizedGaussian" else "scale"): b}), lambda k, a=a: (col(a, k),)),
+                        ("both per symbol", cls(lo, hi), lambda k, a=a, b=b: (col(a, k), col(b, k))),
+                        ("both per symbol as float32 where exact", cls(lo, hi), (lambda k, a=a, b=b: (col(a, k, np.float32), col(b, k, np.float32))) if float(np.float32(a)) == a and float(np.float32(b)) == b else None),
+                    ], [lo, hi, 0, -1]))
+    for nn in (1, 5, 20):
+        for pp in (0.0, 0.3, 0.5, 1.0, 1e-9):
+            groups.append((f"Binomial({nn}, {pp})", [
+                ("both in the constructor", M.Binomial(nn, pp), None),
+                ("n in the constructor, p per symbol", M.Binomial(nn), lambda k, pp=pp: (col(pp, k),)),
+                ("p in the constructor (keyword), n per symbol", M.Binomial(p=pp), lambda k, nn=nn: (col(nn, k, np.int32),)),
+                ("both per symbol", M.Binomial(), lambda k, nn=nn, pp=pp: (col(nn, k, np.int32), col(pp, k))),
+            ], [0, nn, nn // 2]))
+    for pp in (0.3, 0.5, 1e-9, 0.999):
+        groups.append((f"Bernoulli({pp})", [("in the constructor", M.Bernoulli(pp, perfect=False), None), ("per symbol", M.Bernoulli(perfect=False), lambda k, pp=pp: (col(pp, k),)),
+                                          ("categorical table [1-p, p]", M.Categorical(np.array([1.0 - pp, pp]), perfect=False), None)], [0, 1]))
+    for size in (2, 3, 10, 1000):
+        groups.append((f"Uniform({size})", [("in the constructor", M.Uniform(size), None), ("per symbol", M.Uniform(), lambda k, size=size: (col(size, k, np.int32),))], [0, size - 1, 1]))
+    for t in ([0.2, 0.5, 0.3], [1 / 3, 1 / 3, 1 / 3], [0.1, 0.2, 0.7], [0.999, 0.0005, 0.0005]):
+        for kw in ({"perfect": False}, {"perfect": True}, {"lazy": True}):
+            for dt in (np.float64, np.float32):
+                groups.append((f"Categorical({t}, {kw}, {dt.__name__})", [("in the constructor", M.Categorical(np.array(t, dtype=dt), **kw), None),
+                    ("per symbol", M.Categorical(**kw), lambda k, t=t, dt=dt: (np.array([t] * k, dtype=dt),))], [0, 1, 2]))
+    with Quiet():
+        for gname, reps, syms in groups:
+            counters["py_representation_groups"] += 1
+            syms = sorted(set(syms))
+            for k in (1, 2, 3):
+                for msg in itertools.product(syms, repeat=k):
+                    arr = np.array(msg, dtype=np.int32)
+                    want = None
+                    for rname, model, par in reps:
+                        if par is None and rname != "all parameters in the constructor" and rname != "both in the constructor" and rname != "in the constructor" and not rname.startswith("categorical"):
+                            continue
+                        n += 1; counters["py_representation_comparisons"] += 1
+                        try:
+                            a = ANS(); r = RENC()
+                            if par is None:
+                                a.encode_reverse(arr, model); r.encode(arr, model)
+                            else:
+                                a.encode_reverse(arr, model, *par(k)); r.encode(arr, model, *par(k))
+                            got = ([int(x) for x in a.get_compressed()], [int(x) for x in r.get_compressed()])
+                        except BaseException as e:
+                            got = f"{type(e).__name__}: {str(e)[:100]}"
+                        if want is None:
+                            want, first = got, rname
+                        elif got != want:
+                            fail(f"Python front end | {gname.split('(')[0]} | '{rname}' is not the model of '{first}'", f"{gname}, message {list(msg)}: {got} instead of {want}")
+    return n, failures, counters
+
+
 def main():
     cmd = sys.argv[1]
     if cmd == "vectors":
@@ -1202,6 +1412,12 @@ def main():
         n, f, c = run_range_histories(int(sys.argv[2]))
     elif cmd == "callbacks":
         n, f, c = run_callbacks(int(sys.argv[2]))
+    elif cmd == "views":
+        n, f, c = run_views(int(sys.argv[2]))
+    elif cmd == "misuse":
+        n, f, c = run_misuse(int(sys.argv[2]))
+    elif cmd == "representations":
+        n, f, c = run_representations(int(sys.argv[2]))
     elif cmd == "seek":
         n, f, c = run_seek(int(sys.argv[2]))
     elif cmd == "impossible":
